@@ -21,6 +21,7 @@ CFG_1D = dict(
     setshape={(4,): ((2, 2),), (2, 2): ((4,),), (3,): ((3, 1),), (2,): ((1, 2),), (4, 1): ((2, 2),), (3, 1): ((3,),), (2, 3): ((3, 2),), (3, 2): ((6,),), (6,): ((2, 3),)},
     max_live=6,
     set_all_tensor=False,
+    badshape=True,  # shape assignments NumPy rejects must be rejected and change nothing
 )
 CFG_2D = dict(CFG_1D, set_idx=("all", "i0", "c0"))
 
@@ -50,7 +51,7 @@ BOUNDS = {
 def nontrivial(h, model):
     # a history is non-trivial if it contains an in-place write / shape assignment to a tensor that
     # has at least one other live family member at that time (approximated at the end state)
-    if not any(st[0] in ("set", "iop", "out", "setshape") for st in h):
+    if not any(st[0] in ("set", "iop", "out", "setshape", "badshape") for st in h):
         return False
     fams = [model.fam[n] for n in model.order]
     return len(fams) != len(set(fams))
